@@ -4,14 +4,18 @@ package main
 // to the real network.handleNewStream with a recording Receiver.
 
 import (
+	"bufio"
 	"bytes"
 	"context"
+	"encoding/binary"
 	"encoding/json"
 	"errors"
 	"fmt"
 	"io"
 	"os"
 	"os/exec"
+	"path/filepath"
+	"runtime"
 	"strings"
 	"sync"
 	"time"
@@ -331,6 +335,7 @@ type hparts struct {
 	Panic     bool     `json:"panic"`
 	Oracle    string   `json:"oracle"`
 	Reruns    int      `json:"reruns"`
+	Alloc     uint64   `json:"alloc"` // bytes the process allocated while observing (child process only)
 	Viol      [][2]string `json:"viol"`
 }
 
@@ -435,6 +440,9 @@ func (d bombDesc) input(mh *v2.MessageHandler) ([]byte, error) {
 			"bb00000000009fffff", "bb7fffffffffffffff", "9a00a00000", "5a02000001", "9b0000000000100000"}
 		hd := h(heads[d.N%len(heads)])
 		return frameOf(cat(reqHead, h("63657874a16178"), hd, []byte{0, 0, 0}, typeNew)), nil
+	case "len": // a length prefix far beyond the cap, with a little legitimate-looking data behind it
+		lens := []uint64{1 << 62, 1<<63 - 1, 1 << 40, 1 << 31, 64<<20 + 1, 1 << 34}
+		return cat(varint.ToUvarint(lens[d.N%len(lens)]), h("a163677332a0")), nil
 	case "big-frame": // a legitimate message whose frame body has exactly d.N bytes: one padded block
 		mk := func(l int) ([]byte, error) {
 			data := bytes.Repeat([]byte{7}, l)
@@ -472,58 +480,131 @@ func (d bombDesc) input(mh *v2.MessageHandler) ([]byte, error) {
 
 const bombDeadline = 40 * time.Second
 
-// runBombChild: `d_codec bombchild` reads the input from stdin, observes it like any hostile case and prints
-// the observation as JSON
+// runBombChild: `d_codec bombchild` reads inputs from stdin (8-byte big-endian length, then the bytes, repeated),
+// observes each like any hostile case and prints one JSON line per input as soon as it is done
 func runBombChild() {
-	input, err := io.ReadAll(os.Stdin)
-	if err != nil {
-		fmt.Fprintln(os.Stderr, "bombchild:", err)
-		os.Exit(3)
-	}
 	hn, err := newHarness()
 	if err != nil {
 		fmt.Fprintln(os.Stderr, "bombchild:", err)
 		os.Exit(3)
 	}
-	hp, err := observeCase(hn, 0, input)
-	if err != nil {
-		fmt.Fprintln(os.Stderr, "bombchild:", err)
-		os.Exit(3)
+	in := bufio.NewReaderSize(os.Stdin, 1<<16)
+	out := bufio.NewWriter(os.Stdout)
+	for idx := 0; ; idx++ {
+		var lb [8]byte
+		if _, err := io.ReadFull(in, lb[:]); err != nil {
+			if err == io.EOF {
+				break
+			}
+			fmt.Fprintln(os.Stderr, "bombchild:", err)
+			os.Exit(3)
+		}
+		input := make([]byte, binary.BigEndian.Uint64(lb[:]))
+		if _, err := io.ReadFull(in, input); err != nil {
+			fmt.Fprintln(os.Stderr, "bombchild:", err)
+			os.Exit(3)
+		}
+		var m0, m1 runtime.MemStats
+		runtime.ReadMemStats(&m0)
+		hp, err := observeCase(hn, idx, input)
+		if err != nil {
+			fmt.Fprintln(os.Stderr, "bombchild:", err)
+			os.Exit(3)
+		}
+		runtime.ReadMemStats(&m1)
+		hp.Alloc = m1.TotalAlloc - m0.TotalAlloc
+		line, _ := json.Marshal(hp)
+		out.Write(line)
+		out.WriteByte('\n')
+		out.Flush()
 	}
-	out, _ := json.Marshal(hp)
-	os.Stdout.Write(out)
 	os.Exit(0)
 }
 
-// observeInChild: (observation, "" ) or (zero, how the child died)
-func observeInChild(input []byte) (hparts, string, error) {
-	var hp hparts
+// observeBatch observes the inputs one after another in child processes: a child that dies (or does not answer)
+// while working on input k yields died[k] != "" and the remaining inputs go to a fresh child
+func observeBatch(inputs [][]byte) ([]hparts, []string, error) {
+	res := make([]hparts, len(inputs))
+	died := make([]string, len(inputs))
 	exe, err := os.Executable()
 	if err != nil {
-		return hp, "", err
+		return nil, nil, err
 	}
-	ctx, cancel := context.WithTimeout(context.Background(), bombDeadline)
-	defer cancel()
-	cmd := exec.CommandContext(ctx, exe, "bombchild")
-	cmd.Stdin = bytes.NewReader(input)
-	var stdout, stderr bytes.Buffer
-	cmd.Stdout, cmd.Stderr = &stdout, &stderr
-	runErr := cmd.Run()
-	if runErr == nil {
-		if err := json.Unmarshal(stdout.Bytes(), &hp); err != nil {
-			return hp, "", fmt.Errorf("bombchild output: %w", err)
+	for start := 0; start < len(inputs); {
+		rest := inputs[start:]
+		var stdin bytes.Buffer
+		for _, in := range rest {
+			var lb [8]byte
+			binary.BigEndian.PutUint64(lb[:], uint64(len(in)))
+			stdin.Write(lb[:])
+			stdin.Write(in)
 		}
-		return hp, "", nil
+		deadline := bombDeadline + time.Duration(len(rest))*2*time.Second
+		ctx, cancel := context.WithTimeout(context.Background(), deadline)
+		cmd := exec.CommandContext(ctx, exe, "bombchild")
+		cmd.Stdin = &stdin
+		var stdout, stderr bytes.Buffer
+		cmd.Stdout, cmd.Stderr = &stdout, &stderr
+		runErr := cmd.Run()
+		timedOut := ctx.Err() != nil
+		cancel()
+		if ee, ok := runErr.(*exec.ExitError); ok && ee.ExitCode() == 3 {
+			return nil, nil, fmt.Errorf("bombchild setup failed: %s", firstLine(stderr.String()))
+		}
+		k := 0
+		for _, line := range bytes.Split(stdout.Bytes(), []byte{'\n'}) {
+			if len(line) == 0 || k >= len(rest) {
+				continue
+			}
+			var hp hparts
+			if err := json.Unmarshal(line, &hp); err != nil {
+				break // a line cut short by the child's death
+			}
+			res[start+k] = hp
+			k++
+		}
+		if k == len(rest) && runErr == nil {
+			break
+		}
+		if k < len(rest) {
+			how := firstLine(stderr.String())
+			if timedOut {
+				how = fmt.Sprintf("no answer within %s (killed)", deadline)
+			}
+			died[start+k] = fmt.Sprintf("%s [%v]", how, runErr)
+		}
+		start += k + 1
 	}
-	if ee, ok := runErr.(*exec.ExitError); ok && ee.ExitCode() == 3 {
-		return hp, "", fmt.Errorf("bombchild setup failed: %s", firstLine(stderr.String()))
-	}
-	how := firstLine(stderr.String())
-	if ctx.Err() != nil {
-		how = fmt.Sprintf("no answer within %s (killed)", bombDeadline)
-	}
-	return hp, fmt.Sprintf("%s [%v]", how, runErr), nil
+	return res, died, nil
 }
+
+// declaresHuge: some frame of the input announces a body larger than any the reader may allocate by far;
+// such inputs are observed in a child process (a reader that trusts the prefix dies of memory exhaustion,
+// which no recover() catches)
+const hugeDeclared = 16 << 20
+
+func declaresHuge(input []byte) bool {
+	rest := input
+	for len(rest) > 0 {
+		n, k, err := varint.FromUvarint(rest)
+		if err != nil {
+			return false
+		}
+		if n > hugeDeclared {
+			return true
+		}
+		rest = rest[k:]
+		if n > uint64(len(rest)) {
+			return false
+		}
+		rest = rest[n:]
+	}
+	return false
+}
+
+// what a reader may allocate for an input when it honours the 4 MiB frame cap (frames are copied and rendered a
+// few times by the driver itself)
+func allocBound(input []byte) uint64 { return 96<<20 + 64*uint64(len(input)) }
 
 func firstLine(s string) string {
 	lines := strings.Split(s, "\n")
@@ -545,9 +626,9 @@ func bombCases(thorough bool) []hostileCase {
 		return hostileCase{Bomb: &bombDesc{Kind: kind, N: n}, Tags: []string{"bomb", "bomb:" + kind}}
 	}
 	cs := []hostileCase{mk("nest-sel", 2000), mk("nest-ext", 100000), mk("nest-sel", 3000000), mk("alloc", 0), mk("alloc", 4),
-		mk("big-frame", network.MessageSizeMax-1)}
+		mk("big-frame", 1<<20), mk("big-frame", network.MessageSizeMax+1), mk("len", 0), mk("len", 1), mk("len", 2), mk("len", 3)}
 	if thorough {
-		cs = append(cs, mk("nest-ext", 3000000), mk("nest-meta", 100000), mk("nest-sel", 1019), mk("nest-sel", 1021), mk("big-frame", network.MessageSizeMax))
+		cs = append(cs, mk("nest-ext", 3000000), mk("nest-meta", 100000), mk("nest-sel", 1019), mk("nest-sel", 1021), mk("big-frame", network.MessageSizeMax-1), mk("big-frame", network.MessageSizeMax), mk("len", 4), mk("len", 5))
 		for i := 1; i < 10; i++ {
 			if i != 4 {
 				cs = append(cs, mk("alloc", i))
@@ -577,30 +658,14 @@ func runHostile(c *drv.Ctx) error {
 	reruns := 0
 
 	crashes := 0
-	run := func(hc hostileCase, kind string) error {
-		var input []byte
-		var hp hparts
-		died := ""
-		if hc.Bomb != nil {
-			var err error
-			if input, err = hc.Bomb.input(mh); err != nil {
-				return err
-			}
-			if hp, died, err = observeInChild(input); err != nil {
-				return err
-			}
-			if died != "" {
-				// nothing was observed: what a crashed node leaves behind
-				crashes++
-				hp = hparts{First: "GPanic", FirstKind: "died", Seq: []string{"GPanic"}, Oracle: "[]"}
-				hp.Viol = [][2]string{{"process died: " + died, "hostile-crash"}}
-			}
-		} else {
-			input = unhex(hc.Hex)
-			var err error
-			if hp, err = observeCase(hn, w.Stats.Evaluations, input); err != nil {
-				return err
-			}
+	inflight := filepath.Join(c.Out, "inflight.json")
+	_ = os.MkdirAll(c.Out, 0o755)
+	record := func(hc hostileCase, kind string, input []byte, hp hparts, died string) {
+		if died != "" {
+			// nothing was observed: what a crashed node leaves behind
+			crashes++
+			hp = hparts{First: "GPanic", FirstKind: "died", Seq: []string{"GPanic"}, Oracle: "[]"}
+			hp.Viol = [][2]string{{"process died: " + died, "hostile-crash"}}
 		}
 		reruns += hp.Reruns
 		_, _, perr := varint.FromUvarint(input)
@@ -620,14 +685,72 @@ func runHostile(c *drv.Ctx) error {
 				w.Violation(got, v[0], v[1])
 			}
 		}
+	}
+	// inputs observed in a child process (resource bombs, declared lengths far beyond the frame cap): collected and
+	// run at the end
+	type pend struct {
+		hc    hostileCase
+		kind  string
+		input []byte
+	}
+	var pending []pend
+	run := func(hc hostileCase, kind string) error {
+		var input []byte
+		if hc.Bomb != nil {
+			var err error
+			if input, err = hc.Bomb.input(mh); err != nil {
+				return err
+			}
+		} else {
+			input = unhex(hc.Hex)
+		}
+		if hc.Bomb != nil || declaresHuge(input) {
+			if hc.Bomb == nil {
+				hc.Tags = append(hc.Tags, "in-child")
+			}
+			pending = append(pending, pend{hc, kind, input})
+			return nil
+		}
+		// should this process die or hang while running the input, bin/check reports the input recorded here
+		if ij, err := json.Marshal(hc); err == nil {
+			_ = os.WriteFile(inflight, ij, 0o644)
+		}
+		hp, err := observeCase(hn, w.Stats.Evaluations, input)
+		if err != nil {
+			return err
+		}
+		record(hc, kind, input, hp, "")
+		return nil
+	}
+	runPending := func() error {
+		inputs := make([][]byte, len(pending))
+		for i, p := range pending {
+			inputs[i] = p.input
+		}
+		res, died, err := observeBatch(inputs)
+		if err != nil {
+			return err
+		}
+		for i, p := range pending {
+			hp := res[i]
+			if died[i] == "" && hp.Alloc > allocBound(p.input) {
+				hp.Viol = append(hp.Viol, [2]string{fmt.Sprintf("%d MiB allocated while reading an input of %d bytes", hp.Alloc>>20, len(p.input)), "hostile-alloc"})
+			}
+			record(p.hc, p.kind, p.input, hp, died[i])
+		}
+		pending = nil
 		return nil
 	}
 
 	finish := func() error {
+		if err := runPending(); err != nil {
+			return err
+		}
+		_ = os.Remove(inflight)
 		hn.rc.mu.Lock()
 		stray := hn.rc.stray
 		hn.rc.mu.Unlock()
-		w.Stats.Extra = map[string]any{"bomb_children_that_died": crashes, "reruns_after_expired_wait": reruns, "receiver_events_outside_a_case": stray, "unexpected_stream_errors": hn.odd}
+		w.Stats.Extra = map[string]any{"child_observed_inputs_that_killed_the_child": crashes, "reruns_after_expired_wait": reruns, "receiver_events_outside_a_case": stray, "unexpected_stream_errors": hn.odd}
 		return w.Flush()
 	}
 	if c.Replay != "" {
